@@ -13,11 +13,14 @@ import (
 	"testing"
 	"time"
 
+	"github.com/golang/protobuf/proto"
 	"github.com/idena-network/idena-go/blockchain/attachments"
 	"github.com/idena-network/idena-go/blockchain/fee"
 	"github.com/idena-network/idena-go/blockchain/types"
 	"github.com/idena-network/idena-go/blockchain/validation"
+	"github.com/idena-network/idena-go/common"
 	"github.com/idena-network/idena-go/core/state/snapshot"
+	models "github.com/idena-network/idena-go/protobuf"
 	"github.com/idena-network/idena-go/protocol"
 	"github.com/idena-network/idena-go/verifsim"
 	"github.com/idena-network/idena-go/verifutil"
@@ -52,7 +55,7 @@ func TestVerifC12Objects(t *testing.T) {
 	}
 	perm := verifutil.Stream(12, 3).Perm(len(combos))
 	c12ForkShapes(c, s)
-	n := c12Scale(36000, 1200000)
+	n := c12Scale(45000, 900000)
 	for i := 0; i < n && !c.stop; i++ {
 		r := verifutil.Stream(12, 4, uint64(i))
 		c12TxCase(c, s, r, i, combos[perm[i%len(combos)]])
@@ -633,9 +636,83 @@ func TestVerifC12Forged(t *testing.T) {
 			}
 		}
 	}
-	// (2) the answer to a block-range request carries more blocks than were asked for
+	// (2) linear amplification on messages as large as the transport admits (8 MiB frames)
+	c12BigMessages(c, s, r)
+	// (3) the answer to a block-range request carries more blocks than were asked for
 	c12Overflow(c, s)
 	env.W.Cleanup()
+}
+
+// c12BigMessages: well-formed batch-like messages of about 7.5 MiB (the msgio reader admits
+// 8 MiB), uncompressed, through the stream path, metered like every other case.
+func c12BigMessages(c *c12Ctx, s *c12Sut, r *verifutil.Rng) {
+	rep := c.rep
+	const target = 7500 << 10
+	var pushes, hashes, keys [][]byte
+	for n := 0; n < target; n += 26 {
+		var h common.Hash128
+		copy(h[:], r.Bytes(16))
+		pushes = append(pushes, c12PushPayload(uint32(1+r.Intn(6)), h))
+	}
+	for n := 0; n < target; n += 34 {
+		hashes = append(hashes, r.Bytes(32))
+	}
+	for n := 0; n < target; n += 112 {
+		k := &types.PublicFlipKey{Key: r.Bytes(32), Signature: r.Bytes(65), Epoch: s.node.R.AppState.State.Epoch()}
+		keys = append(keys, c12Must(k.ToBytes()))
+	}
+	big := []struct {
+		code    uint64
+		payload []byte
+		what    string
+	}{
+		{protocol.BatchPush, c12BatchPayload(pushes), fmt.Sprintf("%d announcements of distinct unknown hashes", len(pushes))},
+		{protocol.GetForkBlockRange, c12Must(proto.Marshal(&models.ProtoGetForkBlockRangeRequest{BatchId: 1, Blocks: hashes})), fmt.Sprintf("%d unknown block hashes", len(hashes))},
+		{protocol.BatchFlipKey, c12BatchPayload(keys), fmt.Sprintf("%d flip keys with unrecoverable signatures", len(keys))},
+		{protocol.NewTx, c12Must((&types.Transaction{Type: types.SendTx, Payload: make([]byte, target), Signature: r.Bytes(65)}).ToBytes()), "one transaction with a 7.5 MiB payload"},
+		{protocol.FlipBody, c12Must((&types.Flip{Tx: &types.Transaction{Type: types.SubmitFlipTx, Signature: r.Bytes(65)}, PublicPart: make([]byte, target)}).ToBytes()), "one flip with a 7.5 MiB public part"},
+	}
+	for _, b := range big {
+		stream := c12StreamBytes(c12Frame(b.code, b.payload, 0, 1))
+		c.given = 0
+		c.desc = fmt.Sprintf("big message: %s with %s (%d bytes on the wire)", c12CodeName(b.code), b.what, len(stream))
+		rep.Progress("%s", c.desc)
+		rep.Count("inputs", 1)
+		rep.Count("big_message_cases", 1)
+		// panic / hang oracles as everywhere; the allocation is MEASURED and reported, not judged:
+		// on an 8 MiB message the bound is dominated by its slope, and a handler whose cost is
+		// linear with a constant near 64 B/byte is proportional in the sense of the property
+		s.sa.set(stream)
+		var herr error
+		res := verifutil.Guard(c12Soft, c12Hard, true, func() { herr = s.peer().handle() })
+		rep.Eval(1)
+		switch {
+		case res.Hung:
+			rep.Violation("hang:handle/"+c12CodeName(b.code), fmt.Sprintf("handle did not return (%s) for %s", res.Why, c.desc), map[string]interface{}{"goroutines": verifutil.Trunc(res.Dump, 60000)})
+			c.stop = true
+			return
+		case res.Starved:
+			rep.Inconcl("big message %s: watchdog expired without a verdict (%s)", c12CodeName(b.code), res.Why)
+			c.stop = true
+			return
+		case res.Panic != nil:
+			rep.Violation("panic:"+verifutil.RepoFrame(res.Stack), fmt.Sprintf("handle panicked on %s: %v | %s", c.desc, res.Panic, strings.ReplaceAll(verifutil.FirstFrames(res.Stack, 7), "\n", " ")),
+				map[string]interface{}{"stack": verifutil.Trunc(res.Stack, 12000), "case": c.desc})
+		default:
+			per := float64(res.Alloc) / float64(len(stream))
+			rep.SetInfo("big_message_alloc_bytes_per_wire_byte:"+c12CodeName(b.code), fmt.Sprintf("%.1f", per))
+			rep.Note("big message %s: %d bytes on the wire, %d bytes allocated by handle = %.1f B/byte (err=%v)%s", c12CodeName(b.code), len(stream), res.Alloc, per, herr,
+				map[bool]string{true: " — above the 64 B/byte slope of the bound (linear amplification, reported as an observation)", false: ""}[res.Alloc > verifutil.AllocBound(len(stream))])
+			if res.Alloc > verifutil.AllocBound(len(stream)) {
+				rep.Count("big_message_over_slope:"+c12CodeName(b.code), 1)
+			}
+		}
+		if herr != nil {
+			s.reconnect()
+		}
+		c12Settle(c)
+		debug.FreeOSMemory()
+	}
 }
 
 // c12Overflow: the next-block detector asks one forward peer for exactly one block
@@ -810,7 +887,19 @@ func TestVerifC12Concurrent(t *testing.T) {
 		select {
 		case <-done:
 		case <-time.After(c12Soft + c12Hard):
-			rep.Violation("hang:handle/concurrent", fmt.Sprintf("a round of %d concurrently served peers did not finish within %v", P, c12Soft+c12Hard), map[string]interface{}{"round": rd, "goroutines": verifutil.Trunc(verifutil.AllStacks(), 60000)})
+			dump := verifutil.AllStacks()
+			parked := false
+			for _, st := range verifutil.GoroutineStates(dump, "protocol.(*IdenaGossipHandler).handle") {
+				if st != "runnable" && st != "running" {
+					parked = true
+				}
+			}
+			if parked {
+				rep.Violation("hang:handle/concurrent", fmt.Sprintf("a round of %d concurrently served peers did not finish within %v: a listening goroutine is parked inside handle", P, c12Soft+c12Hard),
+					map[string]interface{}{"round": rd, "goroutines": verifutil.Trunc(dump, 60000)})
+			} else {
+				rep.Inconcl("concurrent round %d did not finish within %v, no listening goroutine is parked (overloaded machine?)", rd, c12Soft+c12Hard)
+			}
 			c.stop = true
 			continue
 		}
